@@ -1,13 +1,15 @@
 //! unit: u01e
 //! properties: C01
 //! note: SpecTxBuilder::build_commitment_transaction: the commitment never pays out more than the funding output holds; the fee is the BOLT-3 formula on the kept (non-dust) HTLCs
-//! trusted: assume_specification for core::cmp::max; ChannelTypeFeatures two-boolean stub (as in u01); HTLCOutputInCommitment / ChannelTransactionParameters are field skeletons of the real structs (fields the body reads); CommitmentTransaction::new is external_body and assumed to record its arguments (HTLC sorting = permutation, abstracted as equality of the sat sum and the length); as_holder_broadcastable/as_counterparty_broadcastable external_body; PublicKey, Secp256k1, PaymentHash opaque; trait Logger empty (R3)
+//! trusted: assume_specification for core::cmp::max / core::cmp::min; ChannelTypeFeatures two-boolean stub (as in u01); HTLCOutputInCommitment / ChannelTransactionParameters are field skeletons of the real structs (fields the body reads); CommitmentTransaction::new is external_body and assumed to record its arguments (HTLC sorting = permutation, abstracted as equality of the sat sum and the length); as_holder_broadcastable/as_counterparty_broadcastable external_body; PublicKey, Secp256k1, PaymentHash opaque; trait Logger empty (R3)
 //! trusted: R6e: `v.retain(|p| BODY)` rewritten into `while i < v.len() { let keep = { let p = &v[i]; BODY }; if keep { i += 1 } else { v.remove(i); } }` with BODY carried verbatim (definition of Vec::retain)
 //! assume: channel value and dust limit <= 21e14 sat; <= 2000 HTLCs; each side covers its own HTLCs and the funder the anchors (i.e. get_next_commitment_stats returned Ok for this commitment, proved in unit u01)
 use vstd::prelude::*;
 verus! {
 use vstd::std_specs::cmp::*;
 use core::cmp;
+pub assume_specification<T: core::cmp::Ord>[core::cmp::min::<T>](a: T, b: T) -> (r: T)
+    ensures T::obeys_cmp_spec() ==> r == (if b.cmp_spec(&a) == core::cmp::Ordering::Less { b } else { a });
 pub assume_specification<T: core::cmp::Ord>[core::cmp::max::<T>](a: T, b: T) -> (r: T)
     ensures T::obeys_cmp_spec() ==> r == (if b.cmp_spec(&a) == core::cmp::Ordering::Less { a } else { b });
 pub struct ChannelTypeFeatures { pub anchors: bool, pub zfc: bool }
